@@ -38,7 +38,7 @@ RULE = ("one case = one design generated from a seeded rng as Python source and 
         "memory/instance emitters interleaved, every name requested twice. Conversion level: the real convert() (synth or sim comb "
         "style), declarations parsed from the text and matched 1:1 with the objects of the namespace. Determinism: the same "
         "script converts 4 designs in 3 fresh processes (PYTHONHASHSEED 0/1/random), texts compared after blanking the two "
-        "timestamp lines; special-outs designs run 4 times (hash seed 0 twice). Non-trivial = >= 5 named objects and at least "
+        "timestamp lines; special-outs designs run 6 times (hash seed 0 three times). Non-trivial = >= 5 named objects and at least "
         "two objects sharing a base name (determinism: texts compared); distinct = distinct case digests")
 ASSUMPTIONS = ["migen tracer shim (names only); every class runs with the shim on and off",
                "legality is judged against lib/models/verilog_keywords.py (independent transcription of IEEE 1364-2005 and "
@@ -94,7 +94,8 @@ def plan(tier, seed):
     for i in range(n):
         shards.append({"id": "r-determinism%02d" % i, "cls": "determinism", "cases": det[i::n]})
     dso = [{"seed": "%d/C02/detso/%d" % (seed, k), "level": "det", "k": k, "template": "special_outs",
-            "hashseeds": ["0", "0", "1", str(rng_for(seed, "C02/detso", k).randrange(2, 1 << 31))], "designs": [{"shim": k % 2 == 0}]}
+            "hashseeds": ["0", "0", "0", "1", "2", str(rng_for(seed, "C02/detso", k).randrange(3, 1 << 31))],
+            "designs": [{"shim": k % 2 == 0}]}
            for k in range(z["detso"])]
     n = z["detso_shards"]
     for i in range(n):
